@@ -3,6 +3,7 @@ package props
 import (
 	"fmt"
 	"go/token"
+	"go/types"
 	"strings"
 
 	"czcheck/an"
@@ -169,12 +170,25 @@ func runC08(c *an.Ctx) {
 	}
 
 	// ---- R4 order inside the loop.
+	// The removal tests may sit in Eval itself or in a private predicate it calls (ruleRemovedForTx(tx, id),
+	// tx.removedByRange(id)): such a predicate is verified on its own (it answers false only after the lookup
+	// missed / the range list was exhausted, and never answers false on an edge where the id is in the set or
+	// inside a range) and its result is then read like the inline test.
+	preds := c08RemovalPredicates(c, m)
+	predFact := func(a an.Atom, list string, val string) bool {
+		for _, p := range preds {
+			if p.reads[list] && a.Op == "==" && a.R == val && strings.Contains(a.L, p.fn.Name()+"(") {
+				return true
+			}
+		}
+		return false
+	}
 	cf := an.FactsAt(m.call)
-	need := []struct{ key, l, op, r, bad string }{
-		{"exclusion by id consulted before r.Evaluate", "tx.ruleRemoveByID[", "==", "false", "the per-transaction ruleRemoveByID set is not consulted before the rule is evaluated"},
-		{"pending marker consulted before r.Evaluate", ".SkipAfter", "==", `""`, "a rule is evaluated while a skipAfter marker is pending"},
-		{"skip counter consulted before r.Evaluate", ".Skip", "<=", "0", "a rule is evaluated while the skip counter is positive"},
-		{"exclusion ranges exhausted before r.Evaluate", "len(tx.ruleRemoveByIDRanges)", ">=", "", "the ruleRemoveByIDRanges list is not fully scanned before the rule is evaluated"},
+	need := []struct{ key, l, op, r, bad, list string }{
+		{"exclusion by id consulted before r.Evaluate", "tx.ruleRemoveByID[", "==", "false", "the per-transaction ruleRemoveByID set is not consulted before the rule is evaluated", "ruleRemoveByID"},
+		{"pending marker consulted before r.Evaluate", ".SkipAfter", "==", `""`, "a rule is evaluated while a skipAfter marker is pending", ""},
+		{"skip counter consulted before r.Evaluate", ".Skip", "<=", "0", "a rule is evaluated while the skip counter is positive", ""},
+		{"exclusion ranges exhausted before r.Evaluate", "len(tx.ruleRemoveByIDRanges)", ">=", "", "the ruleRemoveByIDRanges list is not fully scanned before the rule is evaluated", "ruleRemoveByIDRanges"},
 	}
 	for _, n := range need {
 		ok := false
@@ -185,6 +199,8 @@ func runC08(c *an.Ctx) {
 			case n.r == "false" && strings.Contains(a.L, n.l) && strings.HasSuffix(a.L, "#1") && a.Op == "==" && a.R == "false":
 				ok = true
 			case n.r != "" && n.r != "false" && strings.HasSuffix(a.L, n.l) && a.Op == n.op && a.R == n.r:
+				ok = true
+			case n.list != "" && predFact(a, n.list, "false"):
 				ok = true
 			}
 		}
@@ -208,8 +224,10 @@ func runC08(c *an.Ctx) {
 					skipping, what = true, "SkipAfter pending"
 				case strings.HasSuffix(a.L, ".Skip") && a.Op == ">" && a.R == "0":
 					skipping, what = true, "Skip > 0"
-				case strings.HasSuffix(a.L, ".ID_") && a.Op == "<=" && a.R == "rng[1]" && an.FactsAtBlock(b).HasSuffix(".ID_", ">=", "rng[0]"):
+				case strings.HasSuffix(a.L, ".ID_") && a.Op == "<=" && c08RangeBound(a.R, 1) != "" && an.FactsAtBlock(b).HasSuffix(".ID_", ">=", c08RangeBound(a.R, 1)+"[0]"):
 					skipping, what = true, "rule id inside a ruleRemoveByIDRanges range (inclusive)"
+				case predFact(a, "ruleRemoveByID", "true") || predFact(a, "ruleRemoveByIDRanges", "true"):
+					skipping, what = true, "the removal predicate answered true"
 				}
 			}
 			if !skipping {
@@ -225,7 +243,7 @@ func runC08(c *an.Ctx) {
 			}
 		}
 	}
-	c.MinCount("R4", "skipping edges in the rule loop", nSkipEdges, 4)
+	c.MinCount("R4", "skipping edges in the rule loop", nSkipEdges+c08PredEdges(preds), 4)
 	// inclusive range test present (C17.R5 shares it)
 	// stores inside the loop
 	for _, fs := range c.P.StoresToField(pkgWAF, "Transaction", "SkipAfter") {
@@ -276,6 +294,19 @@ func runC08(c *an.Ctx) {
 				outPos = in.Pos()
 			}
 		})
+		for _, p := range preds {
+			if !p.reads[fld] {
+				continue
+			}
+			for _, cs := range p.calls {
+				if m.loop.Blocks[cs.Block()] {
+					nIn++
+				} else {
+					nOut++
+					outPos = cs.Pos()
+				}
+			}
+		}
 		c.Check(nIn >= 1 && nOut == 0, "R4", "Eval: tx."+fld+" is read inside the rule loop only", outPos, fmt.Sprintf("%d reads, all inside the loop", nIn),
 			fmt.Sprintf("tx.%s is read %d time(s) outside the rule loop (and %d inside): the loop works on a snapshot, so an exclusion added by a rule of this phase does not apply to the later rules of the same phase", fld, nOut, nIn))
 	}
@@ -304,6 +335,20 @@ func runC08(c *an.Ctx) {
 					okOrder = false
 				}
 			})
+			for _, p := range preds {
+				if !p.reads[fld] {
+					continue
+				}
+				for _, cs := range p.calls {
+					if !m.loop.Blocks[cs.Block()] {
+						continue
+					}
+					seenLd = true
+					if skipBlk != nil && !(cs.Block() != skipBlk && cs.Block().Dominates(skipBlk)) {
+						okOrder = false
+					}
+				}
+			}
 			if seenLd && skipBlk != nil {
 				c.Check(okOrder, "R4", "Eval: tx."+fld+" is consulted before the skip counter", skipBlk.Instrs[0].Pos(), "removal test dominates the skip test",
 					"the run-time removal list "+fld+" is looked at after the skip counter was consulted: a rule removed by ctl still uses up a skip:N count (and ends up being counted although the rewritten configuration does not contain it), so skip:N ends one rule early per removed rule in its window")
@@ -367,7 +412,9 @@ func runC08(c *an.Ctx) {
 					legit = true
 				case strings.Contains(a.L, "ruleRemoveByID[") && a.Op == "==" && a.R == "true": // removed by id
 					legit = true
-				case strings.HasSuffix(a.L, ".ID_") && strings.HasPrefix(a.R, "rng["): // removed by id range
+				case strings.HasSuffix(a.L, ".ID_") && (c08RangeBound(a.R, 0) != "" || c08RangeBound(a.R, 1) != ""): // removed by id range
+					legit = true
+				case predFact(a, "ruleRemoveByID", "true") || predFact(a, "ruleRemoveByIDRanges", "true"): // removed (predicate)
 					legit = true
 				case strings.HasSuffix(a.L, ".SkipAfter") && a.Op == "!=" && a.R == `""`: // pending skipAfter
 					legit = true
@@ -562,4 +609,167 @@ func c08FlowActionsRun(c *an.Ctx) {
 		}
 	}
 	c.MinCount("R7", "once-per-rule action call sites", n, 1)
+}
+
+// c08RangeBound: expr is <name>[idx] for a plain identifier (the element of a range over the id ranges, whatever
+// the loop variable is called); returns the identifier.
+func c08RangeBound(expr string, idx int) string {
+	suf := fmt.Sprintf("[%d]", idx)
+	if !strings.HasSuffix(expr, suf) {
+		return ""
+	}
+	name := strings.TrimSuffix(expr, suf)
+	if name == "" {
+		return ""
+	}
+	for i, r := range name {
+		if !(r == '_' || r >= 'a' && r <= 'z' || r >= 'A' && r <= 'Z' || i > 0 && r >= '0' && r <= '9') {
+			return ""
+		}
+	}
+	return name
+}
+
+type c08Pred struct {
+	fn    *ssa.Function
+	reads map[string]bool
+	calls []ssa.Instruction // call sites inside Eval
+	edges int               // skipping edges verified inside the predicate
+}
+
+func c08PredEdges(ps []*c08Pred) int {
+	n := 0
+	for _, p := range ps {
+		if len(p.calls) > 0 {
+			n += p.edges
+		}
+	}
+	return n
+}
+
+// c08RemovalPredicates finds the bool-valued functions of the package that Eval calls inside the rule loop and
+// that read the run-time removal lists, and verifies each: a `return false` is reached only with the set lookup
+// missed and the range list exhausted (for the lists it reads), and no edge on which the id is in the set or
+// inside a range leads to a `return false`.
+func c08RemovalPredicates(c *an.Ctx, m *evalModel) []*c08Pred {
+	var out []*c08Pred
+	seen := map[*ssa.Function]*c08Pred{}
+	an.Instrs(m.fn, func(in ssa.Instruction) {
+		cc := an.CallOf(in)
+		if cc == nil || cc.StaticCallee() == nil || !m.loop.Blocks[in.Block()] {
+			return
+		}
+		h := cc.StaticCallee()
+		if relPkg(h) != pkgWAF || h.Signature.Results().Len() != 1 || len(h.Blocks) == 0 {
+			return
+		}
+		if b, ok := h.Signature.Results().At(0).Type().Underlying().(*types.Basic); !ok || b.Kind() != types.Bool {
+			return
+		}
+		if p := seen[h]; p != nil {
+			p.calls = append(p.calls, in)
+			return
+		}
+		reads := map[string]bool{}
+		an.Instrs(h, func(x ssa.Instruction) {
+			u, ok := x.(*ssa.UnOp)
+			if !ok || u.Op != token.MUL {
+				return
+			}
+			for _, fld := range []string{"ruleRemoveByID", "ruleRemoveByIDRanges"} {
+				if an.IsFieldAddrOf(u.X, fullWAF, "Transaction", fld) {
+					reads[fld] = true
+				}
+			}
+		})
+		if len(reads) == 0 {
+			return
+		}
+		p := &c08Pred{fn: h, reads: reads, calls: []ssa.Instruction{in}}
+		seen[h] = p
+		c.FuncsAnalysed[h] = true
+		// proceed points: returns of the constant false
+		var falses []*ssa.Return
+		okShape := true
+		an.Instrs(h, func(x ssa.Instruction) {
+			r, ok := x.(*ssa.Return)
+			if !ok {
+				return
+			}
+			cst, isC := r.Results[0].(*ssa.Const)
+			if !isC {
+				okShape = false
+				return
+			}
+			if an.Expr(cst) == "false" {
+				falses = append(falses, r)
+			}
+		})
+		key := "removal predicate " + h.Name()
+		if !okShape || len(falses) == 0 {
+			c.Unknown("R4", key+" returns constants", h.Pos(), "the predicate does not return plain true/false constants: its answer cannot be related to the removal lists")
+			return
+		}
+		for _, r := range falses {
+			f := an.FactsAt(r)
+			if reads["ruleRemoveByID"] {
+				ok := false
+				for _, a := range f {
+					if strings.Contains(a.L, ".ruleRemoveByID[") && strings.HasSuffix(a.L, "#1") && a.Op == "==" && a.R == "false" {
+						ok = true
+					}
+				}
+				c.Check(ok, "R4", key+": answers false only after the id set missed", r.Pos(), "lookup == false dominates return false", "the predicate can answer 'not removed' without having looked the id up in ruleRemoveByID", f.Strings()...)
+			}
+			if reads["ruleRemoveByIDRanges"] {
+				ok := false
+				for _, a := range f {
+					if a.Op == ">=" && strings.HasSuffix(a.R, ".ruleRemoveByIDRanges)") && strings.HasPrefix(a.R, "len(") {
+						ok = true
+					}
+				}
+				c.Check(ok, "R4", key+": answers false only after the range list is exhausted", r.Pos(), "loop over ruleRemoveByIDRanges completed", "the predicate can answer 'not removed' before every id range was examined", f.Strings()...)
+			}
+		}
+		for _, b := range h.Blocks {
+			ifi, ok := b.Instrs[len(b.Instrs)-1].(*ssa.If)
+			if !ok {
+				continue
+			}
+			for si := 0; si < 2; si++ {
+				skipping, what := false, ""
+				for _, a := range an.CondAtoms(ifi.Cond, si == 0) {
+					switch {
+					case strings.Contains(a.L, ".ruleRemoveByID[") && a.R == "true":
+						skipping, what = true, "id in ruleRemoveByID"
+					case a.Op == "<=" && c08RangeBound(a.R, 1) != "":
+						for _, g := range an.FactsAtBlock(b) {
+							if g.L == a.L && g.Op == ">=" && g.R == c08RangeBound(a.R, 1)+"[0]" {
+								skipping, what = true, "id inside a range (inclusive)"
+							}
+						}
+					}
+				}
+				if !skipping {
+					continue
+				}
+				p.edges++
+				w := an.FindPath(an.PathQuery{Fn: h, StartBlock: b.Succs[si], Target: func(x ssa.Instruction) bool {
+					for _, r := range falses {
+						if x == ssa.Instruction(r) {
+							return true
+						}
+					}
+					return false
+				}})
+				if w != nil {
+					c.Bad("R4", key+": "+what+" answers true", ifi.Pos(), "the predicate can answer 'not removed' although "+what, c.P.TrailString(w)...)
+				} else {
+					c.Ok("R4", key+": "+what+" answers true", ifi.Pos(), "the edge only leads to return true")
+				}
+			}
+		}
+		out = append(out, p)
+	})
+	return out
 }
